@@ -58,11 +58,18 @@ def main():
         args = [a for a in args if a != prop]
     pat = args[0] if args else "*"
     ps = sorted(glob.glob(os.path.join(VERIF, "benign", pat + ".diff")))
-    bad = 0
+    bad = known = 0
+    import json
+    kf = {}
+    if os.path.exists(os.path.join(VERIF, "benign", "KNOWN_FALSE_ALARMS.json")):
+        kf = json.load(open(os.path.join(VERIF, "benign", "KNOWN_FALSE_ALARMS.json")))["patches"]
     with ThreadPoolExecutor(6) as ex:
         for r in ex.map(run, [(p, prop) for p in ps]):
             name = os.path.basename(r["p"])
-            if r["status"] == "ALARM":
+            if r["status"] == "ALARM" and name[:-5] in kf:
+                known += 1
+                print("%-22s known false alarm props=%s (%s)" % (name, ",".join(r["props"]), kf[name[:-5]]))
+            elif r["status"] == "ALARM":
                 bad += 1
                 print("%-22s ALARM props=%s" % (name, ",".join(r["props"])))
                 for l in r["v"][:8]:
@@ -72,7 +79,7 @@ def main():
             else:
                 print("%-22s %s" % (name, r["status"]))
             sys.stdout.flush()
-    print("benign patches: %d, alarms: %d" % (len(ps), bad))
+    print("benign patches: %d, unexpected alarms: %d, documented false alarms: %d" % (len(ps), bad, known))
     sys.exit(1 if bad else 0)
 
 
